@@ -800,7 +800,6 @@ K6_ALPHABET = '`i x\n#'
 K6_ALPHABET_FF = K6_ALPHABET + '\f'
 K6_HEAD = '[setup]\n'
 _K6_NAMES = {'`': 'back-tick', 'i': 'i', ' ': 'space', 'x': 'x', '\n': 'newline', '#': '#', '\f': 'form-feed'}
-REGION_WS_LAST_LINE = 'C07-ws-only-last-line'
 
 
 def _is_odd_space_line(line: str) -> bool:
@@ -815,21 +814,13 @@ def _has_odd_space_line(text: str) -> bool:
     return False
 
 
-def _in_region_ws_last_line(text: str) -> bool:
-    """known finding: the last line of the file is not ended by a newline and consists of white space only, among it a
-    white-space character other than space and tab, and a new element of an instruction phase begins on that line
-    (= the text before it is a complete, error-free document)"""
-    last = text.split('\n')[-1]
-    if not _is_odd_space_line(last):
-        return False
-    before = text[:len(text) - len(last)]
-    if _has_odd_space_line(before):
-        return True  # over-approximation: not analysed further
-    try:
-        ref.read_test_case({_k4.ROOT: before}, _k4.ROOT, 'ROOT')
-    except ref.DocError:
-        return False
-    return True
+def _blank_odd_space_lines(text: str) -> str:
+    """the text with every line of odd white space replaced by an empty line"""
+    return '\n'.join('' if _is_odd_space_line(line) else line for line in text.split('\n'))
+
+
+def _instructions_only(outcome_ok):
+    return {ph: [e for e in els if e[0] == ref.INSTRUCTION] for ph, els in outcome_ok.items()}
 
 
 def _pre_k6(t: str) -> bool:
@@ -837,8 +828,6 @@ def _pre_k6(t: str) -> bool:
     if not (len(t) == c['n'] and _in_alphabet(t, c.get('alphabet', K6_ALPHABET))):
         return False
     if c.get('need_ff') and '\f' not in t:
-        return False
-    if ob.excluded(REGION_WS_LAST_LINE) and _in_region_ws_last_line(K6_HEAD + c['prefix'] + t):
         return False
     return True
 
@@ -855,9 +844,25 @@ def k6_instruction_element(t: str) -> bool:
     # any exception other than the two documented error reports propagates: the obligation fails
     real = _k4.real_outcome(d, text)
     if _has_odd_space_line(text):
-        # lines of white space other than space and tab are not defined by the file syntax: only
-        # `no exception of an undocumented class` is claimed
-        return ob.post(real[0] in ('ok', 'syntax', 'file-access'))
+        # A line of white space other than space and tab is not an empty line of the file syntax and not an
+        # instruction either.  Documented behaviour (fix 7cbb248 in /repo): it is ignored, or reported as a syntax
+        # error naming that line; never an exception of an undocumented class.
+        blanked = _blank_odd_space_lines(text)
+        exp = _k4.expected_outcome({_k4.ROOT: blanked}, d)
+        if real[0] == 'ok':
+            # ignored: the instructions are those of the text with these lines emptied
+            return ob.post(exp[0] == 'ok' and _instructions_only(real[1]) == _instructions_only(exp[1]))
+        if real[0] != 'syntax':
+            return ob.post(False)
+        first, lines = real[1][0], real[1][1]
+        all_lines = text.split('\n')
+        # the report carries the true text of the line it names, and that line is the (first) odd line or a later
+        # one: the odd line begins an element whose reading the syntax does not define (e.g. a description on the
+        # next line is then taken for an instruction name)
+        first_odd = min(i for i, x in enumerate(all_lines) if _is_odd_space_line(x)) + 1
+        names_odd_line = (len(lines) >= 1 and first_odd <= first <= len(all_lines)
+                          and all_lines[first - 1].endswith(lines[0]))
+        return ob.post(names_odd_line or _k4.outcomes_agree(real, exp))
     exp = _k4.expected_outcome(texts, d, c.get('oracle_bug'))
     if c.get('oracle_bug') == 'description-is-instruction-text' and exp[0] == 'ok':
         exp = ('ok', {ph: [e[:5] + (None,) + e[6:] for e in els] for ph, els in exp[1].items()}, None, None)
@@ -895,13 +900,104 @@ def _k6_obligations(tier: str) -> List[Ob]:
             for a in K6_ALPHABET:
                 for b in K6_ALPHABET:
                     add(total, a + b, timeout=2400 if total > 4 else 900)
-    # (length 1 is the single text form-feed, which lies in the region of the known finding)
-    for total in range(2, (3 if tier == 'quick' else 4) + 1):
+    for total in range(1, (3 if tier == 'quick' else 4) + 1):
         add(total, '', ff=True, timeout=1200)
     obs.append(Ob(name='K6:seeded-oracle-error', fn='k6_instruction_element',
                   case=dict(prefix='`', n=3, alphabet='`i x', oracle_bug='description-is-instruction-text'), kernel='K6',
                   bound='seeded oracle error: a description is not recorded', timeout=300, expect=ob.REFUTE,
                   real=REAL_K4, stubs=(_k4.STUB_INSTRUCTIONS,)))
+    return obs
+
+
+# =========================================================================== K7  header lines delimit, real instructions
+
+REGION_HEADER_SWALLOWED = 'C07-header-swallowed-by-instruction'
+REGIONS = (REGION_HEADER_SWALLOWED,)
+REAL_K7 = REAL_K4 + (
+    'exactly_lib.cli_default.program_modes.test_case.default_instructions_setup.INSTRUCTIONS_SETUP',
+    'exactly_lib.section_document.element_parsers.token_stream_parser.TokenParser',
+    'exactly_lib.section_document.element_parsers.token_stream.TokenStream',
+)
+
+
+def _k7_blocks(case, ks):
+    kinds = _k4.kinds_of(case, ks)[_k4.ROOT]
+    blocks = []
+    at = 0
+    for n in case['block_sizes']:
+        blocks.append(kinds[at:at + n])
+        at += n
+    return blocks
+
+
+def _pre_k7(k0: int, k1: int, k2: int, k3: int, k4: int, k5: int, k6: int, k7: int) -> bool:
+    case = ob.case()
+    ks = (k0, k1, k2, k3, k4, k5, k6, k7)
+    if not _k4.pre(case, ks):
+        return False
+    if ob.excluded(REGION_HEADER_SWALLOWED) and _k4.in_region_header_swallowed(_k7_blocks(case, ks)):
+        return False
+    return True
+
+
+def k7_header_delimits(k0: int, k1: int, k2: int, k3: int, k4: int, k5: int, k6: int, k7: int) -> bool:
+    """
+    pre: _pre_k7(k0, k1, k2, k3, k4, k5, k6, k7)
+    post: _
+    """
+    case = ob.case()
+    blocks = _k7_blocks(case, (k0, k1, k2, k3, k4, k5, k6, k7))
+    parser = _k4.default_parser()
+    d = _k4.write_files({})
+
+    def read(kinds):
+        text = '\n'.join(_k4.LINE7[k] for k in kinds) + '\n'
+        return _k4.instructions_of(_k4.real_outcome(d, text, parser))
+
+    whole = read([k for b in blocks for k in b])
+    parts = []
+    offset = 0
+    for b in blocks:
+        parts.append(_k4.shift(read(b), offset))
+        offset += len(b)
+        if case.get('oracle_bug') == 'no-line-shift':
+            offset = 0
+    return ob.post(whole == _k4.compose(parts))
+
+
+def _k7_obligations(tier: str) -> List[Ob]:
+    R = _k4.ROOT
+    thorough = tier != 'quick'
+    obs = []
+
+    def add(name, blocks, expect=ob.CONFIRM, **extra):
+        flat = [x for b in blocks for x in b]
+        case = dict(files={R: flat}, block_sizes=[len(b) for b in blocks])
+        case.update(extra)
+        n = _count({R: flat})
+        obs.append(Ob(
+            name=name, fn='k7_header_delimits', case=case, kernel='K7',
+            bound='test-case files made of the blocks %s (%d files; line texts: _C07_k4.LINE7), read by the parser with the '
+                  'instruction set of the program itself: per phase the instructions (line numbers, source lines, class) and '
+                  'the error report are those of the blocks read one by one - a header line always begins a new block'
+                  % (' | '.join('[%s]' % '; '.join(x if isinstance(x, str) else 'any of ' + _kinds(x) for x in b) for b in blocks), n),
+            timeout=180 + 3.0 * n, expect=expect, real=REAL_K7, selector=True,
+            outside=('here-documents and parenthesised expressions that contain a line with header syntax',
+                     'a root file given by a relative path', 'what the instructions do (only where they begin and end)'),
+            entry='processors._Parser(TestCaseParsingSetup(splitter, default INSTRUCTIONS_SETUP, ActPhaseParser())).apply'))
+
+    body = ('blank', 'comment', 'dir-ok', 'env-ok', 'shell', 'nosuch') + _k4.OPEN_ENDED
+    if not thorough:
+        add('K7:two-blocks', [[('setup', 'assert'), body, ('blank', 'dir-ok')], ['act', 'shell']])
+        add('K7:two-blocks:act-first', [['act', ('shell', 'file', 'blank')], [('cleanup', 'conf'), ('dir-ok', 'cd', 'timeout')]])
+    else:
+        for h in _k4.HEADERS:
+            add('K7:two-blocks:%s' % h, [[h, body, ('blank', 'comment', 'dir-ok', 'file')],
+                                         [('act', 'cleanup', 'setup'), ('shell', 'dir-ok', 'cd')]])
+        add('K7:three-blocks', [[('setup', 'before-assert'), ('dir-ok', 'file', 'env=')], [('act', 'assert'), ('shell', 'cd', 'blank')],
+                                [('cleanup', 'setup'), ('dir-ok', 'copy')]])
+    add('K7:seeded-oracle-error', [['setup', ('dir-ok', 'blank')], ['cleanup', 'dir-ok']], expect=ob.REFUTE,
+        oracle_bug='no-line-shift')
     return obs
 
 
@@ -915,6 +1011,7 @@ def obligations(tier: str) -> List[Ob]:
     obs += _k3_obligations(tier)
     obs += _k4_obligations(tier)
     obs += _k6_obligations(tier)
+    obs += _k7_obligations(tier)
     return obs
 
 
@@ -940,7 +1037,7 @@ def _enumerate_inputs(o: Ob, budget: int):
         return ((''.join(t),) for n in range(c['maxlen'] + 1) for t in itertools.product(K5_ALPHABET, repeat=n))
     if o.fn == 'k6_instruction_element':
         return ((''.join(t),) for t in itertools.product(c.get('alphabet', K6_ALPHABET), repeat=c['n']))
-    if o.fn in ('k4_test_case', 'k4_permutation'):
+    if o.fn in ('k4_test_case', 'k4_permutation', 'k7_header_delimits'):
         sizes = [len(alts) for (_, _, alts) in _k4.slots_of(c)]
         if c.get('perms'):
             sizes.append(len(c['perms']))
@@ -959,11 +1056,12 @@ def selftest(tier: str) -> int:
     n = 0
     per_ob = 4000 if tier == 'quick' else 8000
     for o in obligations(tier):
-        ob.set_context(o.case, (), False)
+        # the regions of known findings are left out: the self-test is about the harness, not about exactly_lib
+        ob.set_context(o.case, REGIONS, False)
         fn = getattr(mod, o.fn)
         pre = {'k1_parse_source': _pre_k1, 'k2_line_syntax': _pre_k2, 'k3_document': _pre_k3,
                'k5_act_unescape': _pre_k5, 'k4_test_case': _pre_k4, 'k4_permutation': _pre_k4,
-               'k6_instruction_element': _pre_k6}[o.fn]
+               'k6_instruction_element': _pre_k6, 'k7_header_delimits': _pre_k7}[o.fn]
         witnessed = False
         for args in itertools.islice(_enumerate_inputs(o, per_ob), per_ob):
             if not pre(*args):
